@@ -1,7 +1,88 @@
 import KitModel.Go.Prelude
-/-! Driver for property C20: `kitdrv C20` reads op lines on stdin, one answer line per input line. -/
+import KitModel.Pool
+/-!
+Driver for property C20: `kitdrv C20` reads one observable event of a real `context.Pool`
+execution per line and answers `ok n=<states>` when the model (`Kit.Pool`, state-set simulation
+closed under watcher steps) accepts it, `reject …` with the state set it had when it does not.
+
+  new ctxs=1,2,3 ended=2          NewPool(ctx1, ctx2, ctx3) with ctx2 already cancelled
+  end c=1                         context 1 ends
+  add c=5                         Add(ctx5) returned
+  cancel                          Cancel() returned
+  release                         the harness released the watcher it had parked at a hook
+  obs quiet=1 park=0|1|2 pi=<i> done=0|1 size=<n> alive=0|1
+                                  park: 0 not parked, 1 at pool.watch.afterWait(pi), 2 at pool.watch.beforeCancel
+After a `reject` every line up to the next `new` is answered `skip`.
+-/
 namespace Driver.C20
+open Kit Kit.Pool
+
+def showPC : PC → String
+  | .head i => s!"head{i}"
+  | .waiting i c => s!"waiting{i}/c{c}"
+  | .woken i => s!"woken{i}"
+  | .exiting => "exiting"
+  | .released => "released"
+  | .finished => "finished"
+
+def showState (s : State) : String :=
+  s!"[{showPC s.pc} pool={showNats s.pool} ended={showNats s.ended} closed={s.closed} done={s.done}]"
+
+def showSet (xs : List State) : String :=
+  if xs.length > 12 then String.join ((xs.take 12).map showState) ++ "…" else String.join (xs.map showState)
+
+structure DState where
+  sim : Option Sim      -- none: no scenario, or rejected
+  deriving Inhabited
+
+def bool? (l : Line) (k : String) : Option Bool :=
+  match l.nat? k with
+  | some 0 => some false
+  | some 1 => some true
+  | _ => none
+
+def parseEvent (l : Line) : Option Event :=
+  match l.op with
+  | "end" => (l.nat? "c").map Event.endCtx
+  | "add" => (l.nat? "c").map Event.add
+  | "cancel" => some Event.cancel
+  | "release" => some Event.release
+  | "obs" => do
+    let quiet ← bool? l "quiet"
+    let park ← l.nat? "park"
+    let parked ← match park with
+      | 0 => some Parked.no
+      | 1 => (l.nat? "pi").map Parked.afterWait
+      | 2 => some Parked.beforeCancel
+      | _ => none
+    let done ← bool? l "done"
+    let size ← l.nat? "size"
+    let alive ← bool? l "alive"
+    some (Event.obs quiet parked done size alive)
+  | _ => none
+
+def stepLine (d : DState) (line : String) : DState × String :=
+  let l := parseLine line
+  if l.op == "new" then
+    match l.nats? "ctxs", l.nats? "ended" with
+    | some ctxs, some ended =>
+      let sim := Sim.start { ctxs := ctxs, ended0 := ended }
+      ({ sim := some sim }, s!"ok n={sim.states.length}")
+    | _, _ => ({ sim := none }, "error bad-new")
+  else
+    match d.sim with
+    | none => (d, "skip")
+    | some sim =>
+      match parseEvent l with
+      | none => ({ sim := none }, "error bad-line")
+      | some ev =>
+        let sim' := advance sim ev
+        if sim'.states.isEmpty then
+          ({ sim := none }, s!"reject before={showSet sim.states}")
+        else
+          ({ sim := some sim' }, s!"ok n={sim'.states.length}")
+
 def main (_args : List String) : IO UInt32 := do
-  IO.eprintln "kitdrv: C20 has no model driver yet"
-  return 2
+  lineLoop stepLine { sim := none }
+  return 0
 end Driver.C20
